@@ -42,11 +42,10 @@ package abci
 
 //@ func applicationState.resetProposal
 //@   props C01
-//@   requires s != nil
 //@   ensures old(s.initState) == nil ==> fresh(s.canonicalState) && s.canonicalState != nil
 //@   modifies anyOf(s.proposal), anyOf(s.canonicalState), *old(s.proposal), kvState()
 //@   ensures s.proposal != nil && fresh(s.proposal) && s.proposal.resultsBeginBlock == nil && s.proposal.resultsDeliverTx == nil && s.proposal.resultsEndBlock == nil && s.proposal.header == nil && s.proposal.hash == nil
-//@   note installs a fresh proposal state over a new overlay of the canonical state; nothing of the previous proposal's results survives (tree construction is outside the contracts)
+//@   note installs a fresh proposal state over a new overlay of the canonical state; nothing of the previous proposal's results survives; in normal block processing the canonical state is replaced by a NEW tree at the committed root on every reset, so an overlay is never layered over a tree that an earlier, undecided proposal was committed into (workingStateRoot commits the overlay into its inner tree)
 
 //@ func applicationState.resetProposalIfChanged
 //@   props C01
